@@ -142,8 +142,17 @@ def translate(line, out):
             ts = int(t[4]) if len(t) > 4 else now
             slot = int(toks[1])
             slot_key[slot] = k
-            imm = ("blocked",) if toks[2] == "PENDING" else ("rc", rc_code(toks[2]))
-            evs.append((now, "OWrite %d %s %s" % (slot, cz(k), cz(ts)), imm, dones_of(toks)))
+            ds = dones_of(toks)
+            if toks[2] == "PENDING":
+                imm = ("blocked",)
+            elif rc_code(toks[2]) == 10:
+                # Timeout is only ever answered to a parked write: here it was parked and answered
+                # within the same worker iteration (max_blocking_time 0)
+                imm = ("blocked",)
+                ds = [(slot, 10, now)] + ds
+            else:
+                imm = ("rc", rc_code(toks[2]))
+            evs.append((now, "OWrite %d %s %s" % (slot, cz(k), cz(ts)), imm, ds))
             continue
         if name in ("net", "adv", "ms", "delR"):
             # event tokens in order; a completion belongs to the event before it.  `adv`: the
